@@ -28,6 +28,7 @@ type World struct {
 	textAtom map[string]int
 	Decorate bool
 	Scheme   int  // how the even text atoms are laid out (see Build)
+	DecoRefs bool // decorated cues without a style / region of their own get a detached one (carried along by the operations)
 	Twins    bool // a style's parent pointer is an object of its own carrying the parent's ID, not the object the list defines
 }
 
@@ -164,6 +165,14 @@ func (w *World) Build(a abs.Subs) *astisub.Subtitles {
 			if c.ID%3 == 0 && len(it.Lines) > 0 {
 				it.Lines[0].VoiceName = fmt.Sprintf("voice%d", c.ID)
 				it.Lines[0].Items[0].InlineStyle = &astisub.StyleAttributes{SRTItalics: true}
+			}
+			if w.DecoRefs && c.ID%2 == 0 {
+				if it.Region == nil {
+					it.Region = &astisub.Region{ID: "deco-region"}
+				}
+				if it.Style == nil {
+					it.Style = &astisub.Style{ID: "deco-style"}
+				}
 			}
 			if c.ID%2 == 0 && len(it.Lines) > 0 {
 				// an inline timestamp (WebVTT karaoke timing) is timing and content, not styling
@@ -320,6 +329,7 @@ func Exec(n int, c abs.OpCase, unit time.Duration, decorate bool) []abs.OpEvent 
 	w := NewWorld(unit, decorate)
 	w.Scheme = n % 3
 	w.Twins = n%5 == 4
+	w.DecoRefs = !(c.Op == "optimize" || c.Op == "removestyling" || c.Op == "merge")
 	if c.Op == "optimize" || c.Op == "removestyling" || c.Op == "merge" {
 		w.Scheme = 0 // those lists are also written to files: an empty first line or no line at all is not representable there
 	}
